@@ -41,22 +41,71 @@ ERR = [
 ]
 
 
-def programs(tier):
-  out = [(progspace.pid(s), s) for s in ERR + POOL]
-  ps = progspace.programs("smoke")
-  if tier != "quick":
-    ps = ps + progspace.programs("quick")[100::6]
-  out += [(i, src) for i, src, _ in ps]
+# Errors raised inside a function that is reached through several call paths: the report is
+# de-duplicated by comparing tracebacks, so every subset of call edges is a different case.
+TB_EDGES = [("mod", "g"), ("mod", "h1"), ("mod", "h2"), ("h1", "g"), ("h2", "g"), ("k", "h1"), ("k", "h2"), ("mod", "k")]
+TB_KINDS = [("indep", "def g(a=0):\n  return [].nope\n"), ("dep", "def g(a=0):\n  return a.nope\n"),
+            ("call", "def need(a: int): pass\ndef g(a=0):\n  return need('s')\n")]
+
+
+def traceback_programs(tier):
+  edges = TB_EDGES[:6] if tier == "quick" else TB_EDGES
+  kinds = TB_KINDS[:2] if tier == "quick" else TB_KINDS
+  out = []
+  for kn, gtext in kinds:
+    for mask in range(1 << len(edges)):
+      es = [e for i, e in enumerate(edges) if mask >> i & 1]
+      body = gtext
+      for fn in ("h1", "h2", "k"):
+        callees = [b for a, b in es if a == fn]
+        body += "def %s():\n%s" % (fn, "".join("  %s()\n" % c for c in callees) or "  pass\n")
+      body += "".join("%s()\n" % b for a, b in es if a == "mod")
+      out.append(("tb:%s:%d" % (kn, mask), body))
   return out
 
 
-def histories(tier):
+def programs(tier):
+  from vk import defspace
+  from vk.checks import c02, c03
+  out = [(progspace.pid(s), s) for s in ERR + POOL]
+  out += traceback_programs(tier)
+  # error-producing statements of every adjustable class (C03's PS-err), each alone
+  ctxs = ("mod",) if tier == "quick" else ("mod", "fnret", "meth")
+  out += [("pserr:%s/%s" % (c, t[0]), c03.render(c, (t[0],))) for c in ctxs for t in c03.TEMPLATES]
+  # annotation x value programs (C02): dozens of errors whose messages print unions, Literals, classes
+  anns = c02.annotations("quick")
+  anns = anns[::8] if tier == "quick" else anns
+  out += [("c02:" + a, c02.build_program(a)[0]) for a in anns]
+  # definition-rich programs (PS-def)
+  dps = defspace.programs("quick" if tier == "quick" else "thorough")
+  if tier == "quick":
+    dps = [(i, s2) for i, s2 in dps if i.startswith("alone:") or i.startswith(("flow:outside<-", "flow:initattr<-", "flow:union2<-"))]
+  out += dps
+  ps = progspace.programs("smoke")
+  if tier == "quick":
+    ps = ps[::4]
+  else:
+    ps = ps + progspace.programs("quick")[100::6]
+  out += [(i, src) for i, src, _ in ps]
+  seen, res = set(), []
+  for i, src in out:
+    if src not in seen:
+      seen.add(src)
+      res.append((i, src))
+  return res
+
+
+def histories(tier, hashseed=0):
+  """In-process histories explored under one hash seed (the cold history () is always explored)."""
   hs = [()]
   n = len(POOL)
   singles = [(i,) for i in range(n)]
   if tier == "quick":
-    return hs + singles[:3] + [(2, 0)]
-  return hs + singles + [(i, j) for i in range(n) for j in range(n) if i != j]
+    # quick: every seed cold; the history dimension is explored under seed 0 only
+    return hs + ([(0,), (2, 0)] if int(hashseed) == 0 else [])
+  if int(hashseed) == 0:
+    return hs + singles + [(2, 0), (0, 2), (1, 3), (4, 1)]
+  return hs + [(int(hashseed) % n,)]
 
 
 def _triple(src, loader, opts):
@@ -121,7 +170,7 @@ def child_main(argv):
   progs = programs(tier)
   jobs = []
   nprocs = int(os.environ.get("VERIF_C04_PROCS", "6"))
-  for h in histories(tier):
+  for h in histories(tier, os.environ.get('VERIF_HASHSEED', '0')):
     # the cold configuration pays the builtins load per program: split it finer
     nchunk = 8 if not h else 2
     for c in range(nchunk):
@@ -198,7 +247,8 @@ def run(rep, tier, seed):
   nconf = sum(len(c) for c in data.values())
   rep.cov.update({"states": states, "transitions": transitions, "traces_validated_against_impl": transitions,
                   "programs": len(progs), "hash_seeds": seeds, "configurations": nconf,
-                  "histories": [list(h) for h in histories(tier)]})
+                  "histories_seed0": [list(h) for h in histories(tier, 0)],
+                  "histories_other_seeds": [list(h) for h in histories(tier, 1)]})
   rep.evaluations = transitions
   rep.nontrivial_extra = sum(1 for i, s in progs if any(o[i]["nerr"] for c in data[seeds[0]].values() for o in [c]))
   rep.outcome("distinct-outputs", states)
